@@ -3,15 +3,22 @@
 1. Design level: TLC model-checks specs/opt/FusionRules.tla, an implementation-shaped transcription of the
    match conditions of the exact-family fusions (IdentityFusion, CastElimination, ReciprocalFusion,
    ReduceMeanAxesFusion, MatMulAddFusion, MatMulScaleFusion, RepeatInterleaveFusion, ShapeSliceToConstant) as a
-   rewrite system over every pattern-shaped graph of <= 3 (identity chains: 2) operators, constant shapes
+   rewrite system (operand positions exactly as the code has them: Add/Mul commutative, Sub/Div/MatMul positional,
+   Div scales only by its divisor) over every pattern-shaped graph AND its near misses (constant on the other side of
+   Sub/Div, c / x next to a MatMul, Sub instead of Add after a MatMul, Slice with an axes input, intermediates that are
+   graph outputs, off-neutral / 2-element constants) of <= 3 (identity chains: 2) operators, constant shapes
    {[], [1], [1,1], [2]} and input shapes {[2], [1,2], [2,1], [2,2]}; the invariant (denotation by OnnxOps
    preserved: shapes AND data) was violated by the originally pinned tree (one-element constants of any rank,
    bias length, tile-shaped RepeatInterleave, ...); the transcription follows the repaired match conditions and finds
    no violating graph now. Every violating graph is a CANDIDATE.
 2. spec -> impl: every candidate is replayed on the real code by `vh-opt replay` and judged by Trace_Optimize;
    only confirmed candidates count, the others are drift of the transcription / of the operator reference.
-3. impl -> spec: `vh-opt record` generates ONNX models (every fusion template with perturbations, random DAGs over
-   the exact integer subset, shape-arithmetic chains), loads each under {optimize off,on} x {shape inference
+3. impl -> spec: `vh-opt record` generates ONNX models (every fusion template with perturbations; for every template
+   program its mechanically derived single-edit NEAR-MISS neighbourhood - operands of every node swapped, binary operator
+   replaced by its sibling, an intermediate requested as graph output / consumed twice, every attribute off its value,
+   one-element constants given another rank / turned into a vector / another value, an Identity inserted on an edge -
+   i.e. the graphs a fusion must NOT rewrite or must rewrite differently; random DAGs over the exact integer subset;
+   shape-arithmetic chains), loads each under {optimize off,on} x {shape inference
    off,on,strict}, runs it on 2-3 conforming input sets; TLC validates every recorded case against
    specs/opt/OptimizeContract.tla (differential, baseline = unoptimised) and, on the exact subset, evaluates the
    logged graph itself with OnnxOps (specs/opt/GraphEval.tla) and compares the baseline with it."""
@@ -115,9 +122,15 @@ def scan(trace, acc):
         fam = acc["fams"].setdefault(cur["fam"], {"runs": 0, "programs": 0, "optimised_graph_differs": 0, "baseline_ok": 0,
                                                   "fired": collections.Counter(), "pclasses": collections.Counter()})
         fam["runs"] += 1
+        nm = cur["variant"].startswith("nm_")
+        if nm and not r.get("aborted"):
+            h = acc["near_miss"].setdefault(cur["variant"], {"runs": 0, "baseline_ok": 0, "optimised_graph_differs": 0})
+            h["runs"] += 1
+            h["baseline_ok"] += r["cfgs"][0]["outcome"] == "ok"
+            h["optimised_graph_differs"] += bool(r["changed"])
         if cur.get("run", 0) == 0:
             fam["programs"] += 1
-            fam["pclasses"][(cur.get("pat") + "/" if cur.get("pat") else "") + cur["variant"]] += 1
+            fam["pclasses"][cur["variant"] if nm else (cur.get("pat") + "/" if cur.get("pat") else "") + cur["variant"]] += 1
         acc["total"] += 1
         if r.get("aborted"):
             acc["aborted"] += 1
@@ -163,7 +176,7 @@ def scan(trace, acc):
 
 def new_acc():
     return {"total": 0, "fams": {}, "seen": set(), "dnt": 0, "samples": [], "sample_fams": set(), "aborted": 0,
-            "fired": collections.Counter()}
+            "fired": collections.Counter(), "near_miss": {}}
 
 
 # ------------------------------------------------------------------------------------------- design-level MC
@@ -250,6 +263,8 @@ def finish(ctx, acc, stats, ncand=0, confirmed=None):
     ctx.cov["runs_optimised_graph_differs"] = stats.get("changed", 0)
     ctx.cov["aborted_runs_unjudged"] = stats.get("aborted", 0)
     ctx.cov["families"] = family_table(acc)
+    ctx.cov["near_miss_runs"] = dict(sorted(acc["near_miss"].items()))
+    ctx.cov["near_miss_runs_total"] = sum(h["runs"] for h in acc["near_miss"].values())
     ctx.cov["fused_operators_seen"] = dict(sorted(acc["fired"].items()))
     ctx.cov["disagreements_checked"] = sum(v["count"] for v in ctx.violations) + sum(c for _, c in ctx.known) + sum(
         d["runs"] for d in ctx.cov.get("reference_disagreements", []))
@@ -290,10 +305,13 @@ def run(ctx):
     trace = ctx.path("opt.ndjson")
     with concurrent.futures.ThreadPoolExecutor(max_workers=2) as ex:
         fut_mc = ex.submit(model_check, ctx)
-        fut_rec = ex.submit(run_harness, ctx, ["record", "--per", str(per)], trace)
+        # near misses: quick = every operand swap / operator substitution + one of each other kind for each of the
+        # first 6 programs of every template family; thorough = all near misses of the first 12 programs
+        nm_args = ["--nm", "6"] if ctx.quick else ["--nm", "12", "--nm-all"]
+        fut_rec = ex.submit(run_harness, ctx, ["record", "--per", str(per)] + nm_args, trace)
         fut_rec.result()
-        chunks = split_trace(trace, 3 if ctx.quick else 12)
-        bad, stats = validate(ctx, chunks, workers=3)
+        chunks = split_trace(trace, 4 if ctx.quick else 16)
+        bad, stats = validate(ctx, chunks, workers=4)
         cands = fut_mc.result()
     scan(trace, acc)
     # spec -> impl: replay the design-level candidates on the real code
